@@ -354,6 +354,104 @@ func evalAbs(info *types.Info, e ast.Expr, env map[string]absVal) absVal {
 }
 
 // ---------------------------------------------------------------------------
+// tagless switch -> if/else-if chain
+//
+// `switch { case a, f(x): A; case b: B; default: D }` evaluates its case expressions in order until one is
+// true, exactly like `if a || f(x) { A } else if b { B } else { D }`.  The conversion is done only when a case
+// expression holds a call of an inlinable function (so that the call can be reached by the lowering of `||`
+// and by inlining), and only when no clause body uses `fallthrough` or an unlabelled `break` that refers to
+// the switch.
+
+func (in *inliner) switchToIf(sw *ast.SwitchStmt) ast.Stmt {
+	if sw.Tag != nil || sw.Body == nil || len(sw.Body.List) == 0 {
+		return nil
+	}
+	need := false
+	var deflt *ast.CaseClause
+	var clauses []*ast.CaseClause
+	for _, st := range sw.Body.List {
+		cc, ok := st.(*ast.CaseClause)
+		if !ok {
+			return nil
+		}
+		if cc.List == nil {
+			deflt = cc
+			continue
+		}
+		clauses = append(clauses, cc)
+		for _, e := range cc.List {
+			if in.containsCandidate(e) {
+				need = true
+			}
+		}
+	}
+	if !need {
+		return nil
+	}
+	// a default clause in the middle is still evaluated last: fine.  Bodies must not break/fallthrough.
+	for _, st := range sw.Body.List {
+		cc := st.(*ast.CaseClause)
+		bad := false
+		var visit func(n ast.Node, nest int)
+		visit = func(n ast.Node, nest int) {
+			ast.Inspect(n, func(m ast.Node) bool {
+				if bad || m == nil {
+					return false
+				}
+				if m == n {
+					return true
+				}
+				switch x := m.(type) {
+				case *ast.FuncLit:
+					return false
+				case *ast.ForStmt, *ast.RangeStmt, *ast.SwitchStmt, *ast.TypeSwitchStmt, *ast.SelectStmt:
+					visit(x, nest+1)
+					return false
+				case *ast.BranchStmt:
+					if x.Tok == token.FALLTHROUGH && nest == 0 {
+						bad = true
+					}
+					if x.Tok == token.BREAK && x.Label == nil && nest == 0 {
+						bad = true
+					}
+				}
+				return !bad
+			})
+		}
+		for _, b := range cc.Body {
+			visit(&ast.BlockStmt{List: []ast.Stmt{b}}, 0)
+		}
+		if bad {
+			return nil
+		}
+	}
+	var root, last *ast.IfStmt
+	for _, cc := range clauses {
+		cond := cc.List[0]
+		for _, e := range cc.List[1:] {
+			cond = &ast.BinaryExpr{X: cond, OpPos: e.Pos(), Op: token.LOR, Y: e}
+		}
+		ifs := &ast.IfStmt{If: cc.Case, Cond: cond, Body: &ast.BlockStmt{Lbrace: cc.Colon, List: cc.Body, Rbrace: cc.End()}}
+		if root == nil {
+			root = ifs
+		} else {
+			last.Else = ifs
+		}
+		last = ifs
+	}
+	if root == nil {
+		return nil
+	}
+	if deflt != nil {
+		last.Else = &ast.BlockStmt{Lbrace: deflt.Colon, List: deflt.Body, Rbrace: deflt.End()}
+	}
+	if sw.Init != nil {
+		return &ast.BlockStmt{Lbrace: sw.Switch, List: []ast.Stmt{sw.Init, root}, Rbrace: sw.End()}
+	}
+	return root
+}
+
+// ---------------------------------------------------------------------------
 // threading
 
 // threadable: the branch ends in a statement that leaves it for good, and contains nothing whose meaning
